@@ -10,6 +10,7 @@ pub mod cmp;
 pub mod ctx;
 pub mod explore;
 pub mod gen;
+pub mod guard;
 pub mod json;
 pub mod refs;
 pub mod settings;
